@@ -46,11 +46,130 @@ def _uses_strings(term):
     return False
 
 
-def check_vc(pc, goal, tier="quick", want_model=True, extra=()):
+def _consts(term, cache):
+    k = term.get_id()
+    if k in cache:
+        return cache[k]
+    out = set()
+    seen = set()
+    stack = [term]
+    while stack:
+        t = stack.pop()
+        if t.get_id() in seen:
+            continue
+        seen.add(t.get_id())
+        if z3.is_quantifier(t):
+            stack.append(t.body())
+        elif z3.is_app(t):
+            d = t.decl()
+            if d.kind() == z3.Z3_OP_UNINTERPRETED and t.num_args() == 0:
+                out.add(d.name())
+            stack.extend(t.children())
+    cache[k] = out
+    return out
+
+
+def hop_pc(pc, goal, hops):
+    """hypotheses within `hops` steps of the goal in the shares-a-constant graph (a subset: sound)"""
+    cache = {}
+    rel = set(_consts(goal, cache))
+    sets = [_consts(t, cache) for t in pc]
+    keep = [False] * len(pc)
+    for _ in range(hops):
+        new = set()
+        for i, cs in enumerate(sets):
+            if not keep[i] and (cs & rel or not cs):
+                keep[i] = True
+                new |= cs
+        rel |= new
+    return [t for t, k in zip(pc, keep) if k]
+
+
+def slice_pc(pc, goal):
+    """cone of influence: keep the hypotheses that (transitively) share an uninterpreted constant with the
+    goal.  Dropping hypotheses is sound (a VC proved from fewer hypotheses is valid)."""
+    cache = {}
+    rel = set(_consts(goal, cache))
+    sets = [_consts(t, cache) for t in pc]
+    keep = [False] * len(pc)
+    changed = True
+    while changed:
+        changed = False
+        for i, cs in enumerate(sets):
+            if not keep[i] and (cs & rel or not cs):
+                keep[i] = True
+                if not cs <= rel:
+                    rel |= cs
+                    changed = True
+    return [t for t, k in zip(pc, keep) if k]
+
+
+def check_vc(pc, goal, tier="quick", want_model=True, extra=(), hints=None, local=None):
+    """1. the whole goal from its cone of influence, with a short budget; 2. if undecided, conjunct by
+    conjunct with the full budget; 3. a conjunct that stays undecided is retried from the full path
+    condition when the cone was smaller.  A `sat` answer for a sliced VC is confirmed on the full one."""
+    t0 = time.time()
+    hints = dict(hints or {})
+    sp = slice_pc(pc, goal)
+    smaller = len(sp) < len(pc)
+    parts = core.split_goal(goal)
+    short = dict(hints)
+    if local is not None and len(local) < len(pc):
+        quick_h = dict(hints)
+        quick_h["cli_s"] = min(hints.get("cli_s", 6), 5)
+        quick_h["api_ms"] = 2000
+        r = _check_vc(local, goal, tier, False, extra, quick_h)
+        if r["status"] == "unsat":
+            r["time"] = time.time() - t0
+            r["backend"] = "%s(loop-local)" % r.get("backend")
+            return r
+    # goal-directed: first only the hypotheses that talk about the goal's own symbols (1 hop, then 2 hops)
+    for hops in (1, 2):
+        hp = hop_pc(pc, goal, hops)
+        if len(hp) < len(sp):
+            quick_h = dict(hints)
+            quick_h["cli_s"] = min(hints.get("cli_s", 6), 4)
+            quick_h["api_ms"] = 1500
+            r = _check_vc(hp, goal, tier, False, extra, quick_h)
+            if r["status"] == "unsat":
+                r["time"] = time.time() - t0
+                r["backend"] = "%s(hop%d)" % (r.get("backend"), hops)
+                return r
+    r = _check_vc(sp, goal, tier, want_model, extra, short)
+    if r["status"] == "sat" and smaller:
+        r = _check_vc(pc, goal, tier, want_model, extra, short)
+    if r["status"] in ("unsat", "sat") or len(parts) <= 1:
+        if r["status"] == "unknown" and smaller and len(parts) <= 1:
+            r = _check_vc(pc, goal, tier, want_model, extra, hints)
+        r["time"] = time.time() - t0
+        return r
+    worst = None
+    for g in parts:
+        spg = slice_pc(pc, g)
+        rp = _check_vc(spg, g, tier, want_model, extra, hints)
+        if rp["status"] != "unsat" and len(spg) < len(pc):
+            rp = _check_vc(pc, g, tier, want_model, extra, hints)
+        if rp["status"] == "sat":
+            rp["time"] = time.time() - t0
+            return rp
+        if rp["status"] != "unsat":
+            worst = rp
+            break
+    res = worst or {"status": "unsat", "backend": "conjunct-wise"}
+    res["time"] = time.time() - t0
+    return res
+
+
+def _check_vc(pc, goal, tier="quick", want_model=True, extra=(), hints=None):
     """returns dict(status=unsat|sat|unknown, backend, time, model).
     Portfolio: integer/array/heap VCs go to the z3 API first; VCs over strings go to cvc5 first
     (z3's sequence solver times out on word equations that cvc5 --strings-exp decides in ms)."""
-    b = BUDGET.get(tier, BUDGET["quick"])
+    b = dict(BUDGET.get(tier, BUDGET["quick"]))
+    hints = hints or {}
+    if "cli_s" in hints:
+        b["cli_s"] = hints["cli_s"] * (1 if tier == "quick" else 4)
+    if "api_ms" in hints:
+        b["api_ms"] = hints["api_ms"]
     t0 = time.time()
     s = z3.Solver()
     s.set("timeout", b["api_ms"])
@@ -70,11 +189,16 @@ def check_vc(pc, goal, tier="quick", want_model=True, extra=()):
         try:
             text = "(set-logic ALL)\n" + s.to_smt2()
             res = _cli(text, b["cli_s"], only=("cvc5-cli",))
-            if res["status"] == "unsat":
+            if res["status"] == "unsat" or hints.get("only") == "cvc5":
                 res["time"] = time.time() - t0
                 return res
         except Exception:
             pass
+    if strings and text is not None:
+        # z3's sequence solver does not honour its time-out reliably: only through the CLI, under a hard limit
+        res = _cli(text, b["cli_s"], skip=("cvc5-cli",), want_model=True)
+        res["time"] = time.time() - t0
+        return res
     r = s.check()
     dt = time.time() - t0
     if r == z3.unsat:
@@ -94,7 +218,7 @@ def check_vc(pc, goal, tier="quick", want_model=True, extra=()):
     return res
 
 
-def _cli(text, timeout_s, only=None, skip=()):
+def _cli(text, timeout_s, only=None, skip=(), want_model=False):
     d = tempfile.mkdtemp(prefix="pyvc_smt_")
     try:
         path = os.path.join(d, "q.smt2")
@@ -119,7 +243,16 @@ def _cli(text, timeout_s, only=None, skip=()):
             if first == "unsat":
                 return {"status": "unsat", "backend": name}
             if first == "sat":
-                return {"status": "sat", "backend": name, "model": None, "model_text": p.stdout[:4000]}
+                mt = p.stdout[:4000]
+                if want_model:
+                    try:
+                        with open(path, "a") as fh:
+                            fh.write("\n(get-model)\n")
+                        p2 = subprocess.run(cmd, capture_output=True, text=True, timeout=timeout_s + 10)
+                        mt = p2.stdout[:20000]
+                    except Exception:
+                        pass
+                return {"status": "sat", "backend": name, "model": None, "model_text": mt}
         return {"status": "unknown", "backend": "portfolio"}
     finally:
         shutil.rmtree(d, ignore_errors=True)
